@@ -65,9 +65,24 @@ func (w *World) applyBlockToModel(h int64, step *BlockStep, plans []*TxPlan, res
 	m := w.M
 	gov := m.Gov
 	startFrozen := map[int]bool{}
+	genesisFlight := map[int]bool{}
 	for _, s := range m.Frozen {
 		startFrozen[s.Seq] = true
+		if s.ID == zeroHashHex {
+			genesisFlight[s.Seq] = true
+		}
 	}
+	defer func() {
+		for _, s := range m.Frozen {
+			if s.ID == zeroHashHex {
+				genesisFlight[s.Seq] = true
+			}
+		}
+		m.GenesisInFlight = len(genesisFlight)
+		if m.GenesisInFlight >= 2 {
+			w.Probes.Hit("stake.two-genesis-stakes-unbonding")
+		}
+	}()
 	proposer := ToAddr(block.ProposerAddress)
 	blockTime := block.Time.Unix()
 
@@ -388,7 +403,7 @@ func (w *World) applyTx(h int64, idx int, p *TxPlan, r *abci.ResponseDeliverTx, 
 	gasLimit := new(big.Int).SetUint64(tx.Gas)
 	maxFee := new(big.Int).Mul(price, gasLimit)
 	hashHex := hex.EncodeToString(p.Hash)
-	isEVM := tx.Type == trxContract || (tx.Type == trxTransfer && m.IsContract(to))
+	isEVM := tx.Type == trxContract || (tx.Type == trxTransfer && (m.IsContract(to) || m.Deployed[to]))
 
 	if p.Tampered {
 		w.Probes.Hit("tamper." + mutName(p))
@@ -728,6 +743,7 @@ func (w *World) applyEvmTx(h int64, idx int, p *TxPlan, r *abci.ResponseDeliverT
 		}
 		m.Contracts = append(m.Contracts, Addr(created))
 		m.Known[Addr(created)] = true
+		m.Deployed[Addr(created)] = true
 		w.Probes.Hit("evm.deploy")
 	} else {
 		if !bytes.Equal(r.Data, ref.Ret) {
@@ -741,6 +757,11 @@ func (w *World) applyEvmTx(h int64, idx int, p *TxPlan, r *abci.ResponseDeliverT
 	}
 	w.compareLogs(h, idx, r, ref)
 	w.noteEvmAccounts(ref)
+	if to == nil {
+		w.logf("E h=%d tx=%d deploy by %s -> %x gas=%d", h, idx, from.Hex(), r.Data, ref.GasUsed)
+	} else {
+		w.logf("E h=%d tx=%d call %s -> %s gas=%d ret=%x", h, idx, from.Hex(), to.Hex(), ref.GasUsed, shortHash(ref.Ret))
+	}
 	return new(big.Int).Mul(gov.GasPrice, new(big.Int).SetUint64(ref.GasUsed))
 }
 
